@@ -34,37 +34,71 @@ def r1_gate(ctx):
     inner = [c for c in b.calls if c.callee == "tower::Service::call"]
     R.check(len(inner) == 1, "C14.R1", "one-inner-call", "one call to the inner service", "%d calls to the inner service" % len(inner), "%s:%d" % (b.file, b.lo))
     fa = b.calls_to(r"Authority::from_http_request$")
-    rec = b.calls_to(r"Option::<.*>::is_none_or$")
-    R.check(len(fa) == 1 and len(rec) == 1, "C14.R1", "shape", "authority extraction + filter decision", "HostFilter::call changed: from_http_request=%d is_none_or=%d" % (len(fa), len(rec)), "%s:%d" % (b.file, b.lo))
-    if not (inner and fa and rec):
+    R.check(len(fa) == 1, "C14.R1", "shape", "one authority extraction", "HostFilter::call changed: from_http_request=%d" % len(fa), "%s:%d" % (b.file, b.lo))
+    if not (inner and fa):
         return
-    ic, f, r = inner[0], fa[0], rec[0]
+    ic, f = inner[0], fa[0]
+    tr = ctx.tracer(follow_callers=False, follow_fields=False)
     some_t = none_t = None
     for sb, arms, other in flow.switch_on(b, f.dest["l"]):
         some_t = arms.get("1")
         none_t = other if "1" in arms and "0" not in arms else arms.get("0")
-    true_t = false_t = None
-    for sb, arms, other in flow.switch_on(b, r.dest["l"]):
-        false_t = arms.get("0")
-        true_t = other if "0" in arms else arms.get("1")
-    R.check(some_t is not None and b.dominates(some_t, ic.bb), "C14.R1", "inner-needs-authority", "the inner service is called only when a single authority was determined", "the inner service is reachable although no authority could be determined", where(ic))
-    R.check(true_t is not None and b.dominates(true_t, ic.bb), "C14.R1", "inner-needs-allow", "the inner service is called only when the filter allows the authority", "the inner service is reachable on the deny branch of the filter", where(ic))
-    # the decision closure calls recognize on the request's authority
-    tr = ctx.tracer(follow_callers=False, follow_fields=False)
-    okc = False
-    for lf in tr.origins(b, r.args[1]):
-        if lf.kind == "closure":
-            cb = F.bodies.get(lf.detail["def"])
-            if cb is not None:
-                rc = cb.calls_to(r"WhitelistedHosts::recognize$")
-                for c in rc:
-                    lv = tr.origins(cb, c.args[1])
-                    if any(l.kind == "call" and re.search(r"from_http_request$", l.detail["callee"] or "") for l in lv):
-                        okc = True
-    R.check(okc, "C14.R1", "decision-on-request-authority", "recognize() is asked about the request's own authority", "the allow decision is not recognize(<the request's authority>)", where(r))
-    # the filter consulted is self.filter
-    lv = tr.origins(b, r.args[0])
-    R.check(any(l.kind == "field" and l.detail["fields"][-1][1] == "filter" for l in lv), "C14.R1", "uses-configured-filter", "the configured allow-list is consulted", "is_none_or is not applied to self.filter", where(r))
+    R.check(some_t is not None and b.dominates(some_t, ic.bb), "C14.R1", "inner-needs-authority", "the inner service is called only when a single authority was determined", "the inner service is reachable although no authority was determined", where(ic))
+    # the allow decision: either `self.filter.is_none_or(|f| f.recognize(&authority))` or an explicit match on self.filter
+    # whose Some arm asks recognize(); in both forms the inner call must lie behind (filter is None) or (recognize == true)
+    allow_blocks = set()   # blocks from which "allowed" is established
+    false_t = None
+    rec_on_req = False
+    uses_filter = False
+    ino = b.calls_to(r"Option::<.*>::is_none_or$")
+    if ino:
+        r = ino[0]
+        for sb, arms, other in flow.switch_on(b, r.dest["l"]):
+            false_t = arms.get("0")
+            tt = other if "0" in arms else arms.get("1")
+            if tt is not None:
+                allow_blocks.add(tt)
+        for lf in tr.origins(b, r.args[1]):
+            if lf.kind == "closure":
+                cb = F.bodies.get(lf.detail["def"])
+                if cb is not None:
+                    for c in cb.calls_to(r"WhitelistedHosts::recognize$"):
+                        if any(l.kind == "call" and re.search(r"from_http_request$", l.detail["callee"] or "") for l in tr.origins(cb, c.args[1])):
+                            rec_on_req = True
+        uses_filter = any(l.kind == "field" and l.detail["fields"][-1][1] == "filter" for l in tr.origins(b, r.args[0]))
+        decision_where = where(r)
+    else:
+        recs = b.calls_to(r"WhitelistedHosts::recognize$")
+        decision_where = where(recs[0]) if recs else "%s:%d" % (b.file, b.lo)
+        for c in recs:
+            if any(l.kind == "call" and re.search(r"from_http_request$", l.detail["callee"] or "") for l in tr.origins(b, c.args[1])):
+                rec_on_req = True
+            if any(l.kind == "field" and l.detail["fields"][-1][1] == "filter" for l in tr.origins(b, c.args[0])):
+                uses_filter = True
+        # the bool that is finally tested: defined as const true on the None arm and as recognize()'s result on the Some arm
+        for sb, blk in enumerate(b.blocks):
+            t = blk["term"]
+            if not t or t["t"] != "switch" or sb not in b.reachable:
+                continue
+            p = op_place(t["discr"])
+            if p is None or p.get("p") or b.locals[p["l"]]["ty"] != "bool":
+                continue
+            srcs = []
+            for l in flow._local_copies_back(b, p["l"], 6):
+                for bi, si, dpl, src in b.defs.get(l, []):
+                    if src[0] == "rv" and src[1]["k"] == "use" and op_const(src[1]["op"]) is not None:
+                        srcs.append(("const", op_const(src[1]["op"]).get("bool")))
+                    elif src[0] == "call" and re.search(r"WhitelistedHosts::recognize$", (op_const(src[1]["f"]) or {}).get("res", (op_const(src[1]["f"]) or {}).get("fn", ""))):
+                        srcs.append(("recognize", None))
+            if ("recognize", None) in srcs and all(k == "recognize" or v is True for k, v in srcs):
+                arms = {v: tb for v, tb in t["arms"]}
+                false_t = arms.get("0")
+                tt = t["otherwise"] if "0" in arms else arms.get("1")
+                if tt is not None:
+                    allow_blocks.add(tt)
+    R.check(bool(allow_blocks) and all(b.dominates(tt, ic.bb) for tt in allow_blocks), "C14.R1", "inner-needs-allow", "the inner service is called only when the filter is disabled or recognises the authority", "the inner service is reachable without a positive allow decision (filter None, or recognize() == true)", where(ic))
+    R.check(rec_on_req, "C14.R1", "decision-on-request-authority", "recognize() is asked about the request's own authority", "the allow decision is not recognize(<the request's authority>)", decision_where)
+    R.check(uses_filter, "C14.R1", "uses-configured-filter", "the configured allow-list is consulted", "the allow decision does not consult self.filter", decision_where)
     # deny exits
     def futs(t):
         out = []
@@ -252,7 +286,50 @@ def r4_default_port(ctx):
     R.check(len(d) == 1 and "Default" in built and "Any" in built, "C14.R4", "inner_from_str:normalises", "the parser normalises default ports and `*`", "inner_from_str no longer normalises default ports / `*` (default_port sites=%d, variants built=%s)" % (len(d), sorted(set(built))), "%s:%d" % (ifs.file, ifs.lo))
 
 
-RULES = [r1_gate, r2_port_table, r3_authority_table, r4_default_port]
+def _ctor_sites(F, adt_suffix):
+    out = []
+    for b in F.real_bodies():
+        if is_test_body(b):
+            continue
+        for bi, blk in enumerate(b.blocks):
+            if blk.get("cleanup"):
+                continue
+            for st in blk["st"]:
+                if st["s"] == "assign" and st["rv"]["k"] == "agg" and st["rv"].get("adt", "").endswith(adt_suffix):
+                    out.append((b, bi, st))
+    return out
+
+
+def r5_one_parser_and_enabled_filter(ctx):
+    """(a) allow-list entries and request authorities are the same kind of value: every Authority is produced by the one
+    normalising parser (inner_from_str), whatever it is converted from - an entry built differently (bare IPv6 without
+    brackets, unnormalised port) never equals the request side's form, or turns into a wildcard route; (b) an *enabled*
+    filter is always Some(list), however short the list: None means 'filtering disabled' to HostFilter::call."""
+    F, R = ctx.F, ctx.R
+    sites = _ctor_sites(F, "http::authority::Authority")
+    n = 0
+    for b, bi, st in sites:
+        if b.path.endswith("::clone") and (b.impl_trait or "").endswith("Clone"):
+            continue
+        n += 1
+        R.check(bool(re.search(r"authority::Authority::inner_from_str$", b.path)), "C14.R5", "authority-ctor:%s" % fkey(b), "Authority values are built by the normalising parser", "%s builds an Authority without going through the parser (inner_from_str): the value is not normalised like the request side's (IPv6 brackets, default ports), so an allow-list entry built this way never matches - or matches every host" % short(b.path), "%s:%d" % (b.file, st["sp"][0]))
+    R.floor("C14.R5", n, 1, "Authority construction sites")
+    tr = ctx.tracer(follow_callers=False, follow_fields=False, inline_calls=False)
+    m = 0
+    for b, bi, st in _ctor_sites(F, "host_filter::HostFilterLayer"):
+        if b.path.endswith("::clone") and (b.impl_trait or "").endswith("Clone"):
+            continue
+        m += 1
+        lv = tr.origins(b, st["rv"]["ops"][0])
+        kinds = sorted({(l.detail.get("variant") if l.kind == "agg" else flow.leaf_str(l)[:60]) for l in lv})
+        if re.search(r"HostFilterLayer::disable$", b.path):
+            R.check(kinds == ["None"], "C14.R5", "layer:disable-is-none", "disable() stores None", "HostFilterLayer::disable stores %s" % kinds, "%s:%d" % (b.file, st["sp"][0]))
+        else:
+            R.check(kinds == ["Some"], "C14.R5", "layer:%s-is-some" % b.path.split("::")[-1], "%s always stores Some(allow-list)" % short(b.path), "%s can store %s as the filter: None means `filtering disabled` to HostFilter::call, so an enabled filter (e.g. with an empty allow-list) lets every host through" % (short(b.path), kinds), "%s:%d" % (b.file, st["sp"][0]))
+    R.floor("C14.R5.layer", m, 2, "HostFilterLayer construction sites")
+
+
+RULES = [r1_gate, r2_port_table, r3_authority_table, r4_default_port, r5_one_parser_and_enabled_filter]
 
 LEVEL_TEXT = (
     "The gate (who may reach the inner service) is decided by dominance for every path of HostFilter::call, and the three "
